@@ -80,6 +80,15 @@ func importLocalFile(
 		}
 	}
 
+	if !fromRoot {
+		// The trimming above can turn a padded segment into "..": check the final path again.
+		if rel, err := filepath.Rel(sourceDir, importPath); err != nil || rel == ".." ||
+			strings.HasPrefix(rel, ".."+string(filepath.Separator)) {
+			err = fmt.Errorf("import path can not be pointing outside of the script's directory: %s", importPath)
+			return nil, &localImportError{err: err, scanner: scanner}
+		}
+	}
+
 	if err := bundleLocalFile(ctx, importPath); err != nil {
 		return nil, &localImportError{err: err, scanner: scanner}
 	}
